@@ -24,7 +24,13 @@ order, strided / reversed / offset views into a larger caller-owned buffer whose
 bytes are snapshotted too, write-protected arrays; a refusal is fine, a write is
 not), ctor_multi (entry points that build several objects in one call: each
 object on its own AND pairwise distinct identifiers), ctor_opt (palette colour
-tables 8/16 bit, odd/even sizes, each entry point, inside seg and pm).
+tables 8/16 bit, odd/even sizes, each entry point, inside seg and pm), ctor_src (the
+FORM of the source / referenced images: single-frame series in spatial, reversed or
+shuffled order, with or without SpacingBetweenSlices; ONE multi-frame image with
+regular / irregular / single frames, with or without a recorded spacing; a
+segmentation as source; tiled slide images; several pyramid levels in descending,
+ascending or mixed order of size, as list or tuple - for seg x3, pm and the
+grayscale / pseudo-colour / colour presentation states).
 Extension: sop_init (hd.base.SOPClass called directly: file meta information,
 guard order, stored long strings; model-compared + strict write / read back),
 seg_plane (Segmentation._get_segment_pixel_array called directly over dtypes,
@@ -32,6 +38,13 @@ ranks, segmentation types, max_fractional_value and memory layouts: [was the
 caller's array written to, values]; model-compared), and constructor bodies:
 translate_c20.translate_ctors turns __init__ bodies into effect terms checked by
 ok_ctor (no write to any parameter); the accepted ones are pinned obligations.
+Strengthening round 2 (model-compared): lut with cls SegmentedPaletteColorLUT (real
+discrete + linear segments expanding to 1 .. 2^16 entries and a malformed stream:
+[descriptor, stored bytes, number of expanded entries], written and read back),
+seg_measures (Segmentation.__init__ x origin of the pixel measures x spacing present /
+derivable: [object of the caller changed, spacing recorded]) and pr_area
+(pr.content._add_displayed_area_attributes called directly x order of the sizes of
+the referenced images: [corner, selected image, the caller's list afterwards]).
 """
 import copy as _copy
 import io
@@ -70,6 +83,14 @@ ORACLE_PREMISES = [
     'constructors themselves, assume-guarantee)',
     'SOPClass.__init__: UID arguments opaque, transfer syntax abstracted to 7 classes, dates / person names / '
     'coding schemes / ContentDate+Time not modelled',
+    'SegmentedPaletteColorLUT: only the NUMBER of expanded entries is modelled (the expanded values are not stored '
+    'in any element); numpy scalar arithmetic of the loop (uint8/uint16 wrap-around, int(nan)) enters as the error '
+    'kinds of seg_count',
+    'Segmentation pixel measures: _get_pixel_measures_sequence returns the source image\'s own sequence for a '
+    'multi-frame source and a new one otherwise; deepcopy = new object; get_volume_positions finds a spacing iff the '
+    'frame positions are regularly spaced (the generator keeps steps equal or apart by >= 100 %) - hand-transcribed '
+    'ownership configuration (measures_cfg), tied by the seg_measures kind',
+    'displayed area: sorted() is a stable sort of a copy (insertion sort in the model), list.sort() the same in place',
 ]
 MODELLED = ('all from_dataset/from_sequence/extract_from_dataset/_from_dataset_* classmethods under src/highdicom '
             '(effect terms, regenerated each run); valuerep._check_code_string/_check_short_string/_check_long_string/'
@@ -79,7 +100,11 @@ MODELLED = ('all from_dataset/from_sequence/extract_from_dataset/_from_dataset_*
             'SOP Instance UID per level; pm.ParametricMap._encode_frame native branch; base.SOPClass.__init__ (guards in '
             'source order, file meta information, SOP common / series / equipment attributes); '
             'seg.Segmentation._get_segment_pixel_array (values and ownership of every numpy step); 88 pinned __init__ '
-            'bodies as effect terms (translate_c20.EXPECTED_CTORS)')
+            'bodies as effect terms (translate_c20.EXPECTED_CTORS); content.SegmentedPaletteColorLUT.__init__ (guards, '
+            'segment loop as number of expanded entries and its error kinds, descriptor incl. the 2^16 rule, stored '
+            'bytes); the pixel-measures block of seg.Segmentation.__init__ (origin of the sequence, copy before the '
+            'derived SpacingBetweenSlices is recorded); pr.content._add_displayed_area_attributes (selection of the '
+            'smallest level, order of the caller\'s list)')
 STRATA = ['guard', 'valid', 'uid_uuid', 'uid_hd', 'uid_valid', 'uid_unique', 'conv', 'ctor',
           'ctor_layout', 'ctor_multi', 'ctor_opt', 'lut', 'pyr_ids', 'pm_native', 'sop_init', 'seg_plane',
           'ctor_src', 'seg_measures', 'pr_area']
@@ -87,7 +112,11 @@ NOT_EXECUTED = ['SpecimenDescription.from_dataset at run time (substitute attrib
                 'JPEG 2000 / JPEG-LS transfer syntaxes in the ctor kinds',
                 'non-native byte order for seg / sc pixel arrays and integer pm arrays is REFUSED by the library '
                 '(TypeError / ValueError, counted as rejected, inputs checked unchanged); only float pm arrays and '
-                'LUT tables are accepted in that byte order']
+                'LUT tables are accepted in that byte order',
+                'LegacyConvertedEnhanced* images as SOURCE of a segmentation / parametric map (the substitute attribute '
+                'table gives them no FrameOfReferenceUID); AdvancedBlendingPresentationState',
+                'segmented tables that expand to 0 or to more than 2^16 entries are model-compared but not written: '
+                'the current code accepts them although the descriptor cannot be written (reported, see claims)']
 RULE = ('guard/valid: strings over a boundary alphabet (upper, lower, digit, space, underscore, backslash, newline, '
         'non-ASCII) with lengths around every limit (0,1,15,16,17,63,64,65,1023..1025,10239..10241); uid: 128-bit '
         'draws incl. 0, 9, 10, 2^k, 2^128-1; conv: every reachable converter x copy in {True,False} on randomly '
@@ -100,7 +129,15 @@ RULE = ('guard/valid: strings over a boundary alphabet (upper, lower, digit, spa
         'refusals; pyr_ids: every guard of the argument check + random; pm_native: byte order x width x rank x '
         'mappings; sop_init: every guard alone and in pairs (guard order), 7 transfer-syntax classes, LO arguments of '
         '0,1,63,64,65 characters with backslashes, numbers None/0/-1/1; seg_plane: float/int x label map/stack x '
-        'described [1]/other x BINARY/FRACTIONAL x max_fractional_value 1,2,100,255 x dtype x 6 memory layouts. '
+        'described [1]/other x BINARY/FRACTIONAL x max_fractional_value 1,2,100,255 x dtype x 6 memory layouts; ctor_src: seg x3 / pm / pr (window, VOI LUT, modality LUT, pseudo-colour, colour) x form '
+        'of the source or referenced images (series in order / reversed / shuffled / without spacing, multi-frame '
+        'regular / with spacing / single frame / irregular, segmentation as source with / without spacing, tiled, '
+        'pyramid levels descending / ascending / mixed / equal sizes, list / tuple); seg_measures: source (series, '
+        'multi-frame, segmentation, tiled) x pixel_measures passed or not x spacing present or not x stack (single, '
+        'regular, irregular); pr_area: tiled or not x 0..5 images x order of sizes (ascending, descending, mixed, '
+        'ties, equal products) x list / tuple; lut also: segmented tables with discrete and linear segments expanding '
+        'to 1,2,3,255,256,257,1000 (8 bit) and 1,2,256,4096,65534,65535,65536 (16 bit) entries, alone / in a '
+        'transformation / in a presentation state, malformed segment streams, plain tables of 65535 and 65536 entries. '
         'non-trivial = accepted value / changed class / written file')
 
 CTOR_KINDS = ('ctor', 'ctor_layout', 'ctor_multi', 'ctor_opt', 'ctor_src')
@@ -1521,7 +1558,7 @@ def _call_mistake(ex):
 
 
 def _viol(msg):
-    return Err('VIOLATION ' + msg[:400])
+    return Err('VIOLATION ' + ''.join(ch if 32 <= ord(ch) < 127 else ' ' for ch in msg[:400]))
 
 
 def _unchanged(before, owned, what):
@@ -1543,7 +1580,8 @@ def run_lut(c):
     bits, first, cls, lay = c['bits'], c['first'], c['cls'], c.get('layout', 'C')
     dt = np.uint8 if bits == 8 else np.uint16
     what = f"{cls}({c.get('via') or ''}{', in ' + c['holder'] if c.get('holder') else ''}, {bits} bit, " \
-           f"{len(c['r'])} entries, layout {lay})"
+           f"{len(c['r'])} {'values of segmented data' if cls.startswith('Segmented') or c.get('via') == 'segments' else 'entries'}, " \
+           f"layout {lay})"
     owned = before = None
     if cls == 'SegmentedPaletteColorLUT':
         return _run_segmented_lut(c, what)
